@@ -318,6 +318,7 @@ def run(ctx):
 
     # ---------------------------------------------------------------- R18e
     gns = inner.get('get_next_split')
+    n_cal = [0]
     if gns is None:
         ctx.unknown('R18e', m, sac, 'get_next_split not found')
     else:
@@ -363,6 +364,9 @@ def run(ctx):
             if isinstance(n, ast.Compare) and len(n.ops) == 1 and unparse(n.comparators[0]) == 'max_split' \
                     and isinstance(n.ops[0], (ast.GtE, ast.Gt)):
                 bound_txt = unparse(n)
+        ctx.rule('R18w', 'a callable separator is called with the whole text of the chars node and the position to search from '
+                         '(`sep_chars(chars, pos)`), never with a slice and a rebased position: it may look at what precedes the '
+                         'position', 1)
         try:
             rcs = symex.return_cases(gns)
         except symex.TooManyPaths:
@@ -390,6 +394,22 @@ def run(ctx):
                            'look-behind, \\b and ^ see a different context and the text is split at places '
                            'the pattern does not match in the original' % short(c_, 50),
                            construct='get_next_split: regex search')
+            gp_ = [a_.arg for a_ in gns.args.args]
+            for c_ in [c_ for c_ in ast.walk(v) if isinstance(c_, ast.Call) and isinstance(c_.func, ast.Name)
+                       and c_.func.id == (sac.args.args[1].arg if len(sac.args.args) > 1 else 'sep_chars')]:
+                n_cal[0] += 1
+                whole = len(c_.args) == 2 and len(gp_) >= 2 and unparse(c_.args[0]) == gp_[0] and unparse(c_.args[1]) == gp_[1] \
+                    and not c_.keywords
+                ctx.decide('R18w', whole, m, cs.node, 'callable separator called with the whole text and the position',
+                           'the separator callable is called as %s instead of (%s): the documented signature hands it the whole '
+                           'text of the node and the position to search from -- with a slice, a separator that looks at what stands '
+                           'before the position (an escaped comma, a precomputed absolute index) answers for another place and '
+                           'the list is split where the caller said it must not be' % (short(c_, 50), ', '.join(gp_[:2])),
+                           construct='get_next_split: callable separator')
+    if gns is not None:
+        if not n_cal[0]:
+            ctx.unknown('R18w', m, gns, 'no call of the separator callable found in get_next_split',
+                        construct='get_next_split: callable separator')
     # split_at_node bound
     for n in ast.walk(san):
         if isinstance(n, ast.Compare) and unparse(n.comparators[0]) == 'max_split' and \
@@ -696,6 +716,12 @@ def run(ctx):
                      'puts the children at the FRONT of its work list; children appended to the end of a work list are read '
                      'after everything that follows the group (`a{,}b` gives `ab,`)', 1)
     gca = m.functions.get('_get_content_as_chars')
+    if gca is None:
+        # found through its user: the module-level function LatexNodeList.get_content_as_chars() hands its list to
+        pub_ = m.functions.get('LatexNodeList.get_content_as_chars')
+        for c_ in (ast.walk(pub_) if pub_ is not None else ()):
+            if isinstance(c_, ast.Call) and isinstance(c_.func, ast.Name) and c_.func.id in m.functions and gca is None:
+                gca = m.functions[c_.func.id]
     if gca is None:
         ctx.unknown('R18u', m, None, '_get_content_as_chars not found', construct='_get_content_as_chars: order')
     else:
